@@ -258,6 +258,18 @@ def negative_scenario(kind):
         main = "import m1\nprint \"@start\"\nk = m1\nk.counter_1 = 9\nprint m1.get_1()\n"
     elif kind == "opassign-through-module-alias":
         main = "import m1\nprint \"@start\"\nk = m1\nk.counter_1 += 9\nprint m1.get_1()\n"
+    elif kind.startswith("write-through-captured-module-alias"):
+        # the module object copied into a plain variable that a FUNCTION (a closure, a method) captures: writes through it are writes
+        # to the module's members all the same
+        w = {"assign": "k.counter_1 = 9", "opassign": "k.counter_1 += 9", "unwrap": "k.counter_1 ?= 9"}[kind.split(":")[1]]
+        where = kind.split(":")[2]
+        if where == "function":
+            body = "wr = fn() {\n\t%s\n}\nwr()" % w
+        elif where == "nested-function":
+            body = "wr = fn() {\n\tinner = fn() {\n\t\t%s\n\t}\n\tinner()\n}\nwr()" % w
+        else:
+            body = "class Wm {\n\tfn go(self) {\n\t\t%s\n\t}\n}\nwm = Wm()\nwm.go()" % w
+        main = "import m1\nprint \"@start\"\nk = m1\n" + body + "\nprint m1.get_1()\n"
     elif kind == "wrong-type-use":
         main = "import counter_1 from m1\nprint \"@start\"\nx: str = counter_1\nprint x\n"
     elif kind == "exported-twice":
@@ -329,7 +341,7 @@ def special_scenario(kind):
 
 SPECIALS = ["back-edge:%s:%s:%s" % (b, e, x) for b in ("names", "module") for e in ("registry", "both-forms") for x in ("plain", "after-a-call")] + ["self-in-imported-class:importer-top-level", "self-in-imported-class:entry-module", "self-in-imported-class:from-function",
             "names-that-begin-with-keywords", "exported-object-by-name"]
-NEGATIVES = ["private-via-module", "private-via-names", "write-module-member", "write-through-module-alias", "opassign-through-module-alias", "wrong-type-use", "exported-twice"]
+NEGATIVES = ["write-through-captured-module-alias:%s:%s" % (w_, c_) for w_ in ("assign", "opassign", "unwrap") for c_ in ("function", "nested-function", "method")] + ["private-via-module", "private-via-names", "write-module-member", "write-through-module-alias", "opassign-through-module-alias", "wrong-type-use", "exported-twice"]
 
 
 def describe(case):
